@@ -508,6 +508,14 @@ def durDivs (divs : Nat) (f : Frac) : Int := truncRat ((divs : Rat) * 4 * f.val)
 /-- `numpy.isclose(a, b, atol)` with the default `rtol = 1e-5` -/
 def isClose (a b atol : Rat) : Bool := decide (absR (a - b) ≤ atol + absR b / 100000)
 
+/-- the closing point of the reader's signature maps (`make_timesig_maps(ts, max_time)`): the largest
+    `OffsetInBeats`, or the position of the last time signature if that is later (fix C08-16) -/
+def closingTime (offs : List Rat) (first : Rat) (ts : List TSLine) : Rat :=
+  let maxNote := offs.foldl max first
+  match ts.getLast? with
+  | some s => if maxNote < s.timeB then s.timeB else maxNote
+  | none => maxNote
+
 /-- `part_from_matchfile` (whole-note offsets/durations) on the sorted snotes, the collapsed
     time-signature lines (non-empty) and key-signature lines -/
 def reconstruct (raw : List SNote) (ts : List TSLine) (ks : List (Rat × Int)) : Option Recon := do
@@ -515,10 +523,7 @@ def reconstruct (raw : List SNote) (ts : List TSLine) (ks : List (Rat × Int)) :
   let first ← ns.head?
   let _ ← ts.head?
   -- the closing point of the signature maps: the last note, or the last time signature if that is later (fix C08-16)
-  let maxNote := (ns.map (·.2.offsetB)).foldl max first.2.offsetB
-  let maxTime := match ts.getLast? with
-    | some s => if maxNote < s.timeB then s.timeB else maxNote
-    | none => maxNote
+  let maxTime := closingTime (ns.map (·.2.offsetB)) first.2.offsetB ts
   let divs := importDivs ts maxTime (ns.map (·.2))
   let minB := (ns.map (·.2.onsetB)).foldl min first.2.onsetB   -- np.unique(...)[0]
   let t := beatsToQuarters ts first.2.onsetB                     -- min_time = snotes[0].OnsetInBeats
